@@ -842,6 +842,70 @@ func MustReport(s *Scenario) []string {
 			doBody(a.Body)
 		}
 	}
+	// uses cycles anywhere (also among groupings nobody uses)
+	{
+		type gkey struct{ mod, name string }
+		edges := map[gkey][]gkey{}
+		var collect func(owner gkey, body []*Node)
+		var visitG func(mod string, g *Grouping)
+		collect = func(owner gkey, body []*Node) {
+			for _, n := range body {
+				if n.Kind == KUses && n.Uses != nil {
+					edges[owner] = append(edges[owner], gkey{n.Uses.Mod, n.Uses.Name})
+				}
+				for _, g := range n.Groupings {
+					visitG(owner.mod, g)
+				}
+				collect(owner, n.Kids)
+			}
+		}
+		visitG = func(mod string, g *Grouping) {
+			k := gkey{mod, g.Name}
+			for _, x := range g.Groupings {
+				visitG(mod, x)
+			}
+			collect(k, g.Body)
+		}
+		for _, m := range s.Mods {
+			for _, g := range m.Groupings {
+				visitG(m.Name, g)
+			}
+			var inBody func(body []*Node)
+			inBody = func(body []*Node) {
+				for _, n := range body {
+					for _, g := range n.Groupings {
+						visitG(m.Name, g)
+					}
+					inBody(n.Kids)
+				}
+			}
+			inBody(m.Body)
+		}
+		state := map[gkey]int{}
+		var dfs func(k gkey) bool
+		dfs = func(k gkey) bool {
+			switch state[k] {
+			case 1:
+				return true
+			case 2:
+				return false
+			}
+			state[k] = 1
+			for _, e := range edges[k] {
+				if dfs(e) {
+					return true
+				}
+			}
+			state[k] = 2
+			return false
+		}
+		for k := range edges {
+			if dfs(k) {
+				out = append(out, "grouping "+k.name+" uses itself (cycle in the uses graph)")
+				break
+			}
+		}
+	}
 	// dangling references anywhere, also in groupings nobody uses (the
 	// reference compilation only expands what is used)
 	seen := map[string]bool{}
